@@ -914,7 +914,8 @@ func (c *compiler) compileStatementsNeedResult(list []ast.Statement, lastProduci
 			leave()
 		}
 	}()
-	for _, st := range list[lastProducingIdx+1:] {
+	rest := list[lastProducingIdx+1:]
+	for i, st := range rest {
 		if _, ok := st.(*ast.FunctionDeclaration); ok {
 			continue
 		}
@@ -922,6 +923,9 @@ func (c *compiler) compileStatementsNeedResult(list []ast.Statement, lastProduci
 		if leave == nil {
 			if _, ok := st.(*ast.BranchStatement); ok {
 				leave = c.enterDummyMode()
+				// lexical declarations among the remaining (unreachable) statements are resolved
+				// in the current scope, which is now the dummy one
+				c.compileLexicalDeclarations(rest[i+1:], true)
 			}
 		}
 	}
